@@ -15,7 +15,8 @@ RULE = ("lines = reference rendering of (record, dialect point); the full cross 
         "shape tuples (plain / blank-containing / each escaped reserved character / multi-valued / flag, 1..3 attributes "
         "quick, 1..5 thorough) x extra columns x '.' coordinates is executed, then random records; non-trivial = >= 2 "
         "attributes; distinct = distinct (dialect point, shape tuple, extras, dots) or distinct random line")
-REQUIRED = ["lines parsed again after editing the first result", "feature_from_line calls", "byte-identical prints", "strict=False comparisons", "_reconstruct contract evaluations"]
+REQUIRED = ["lines parsed again after editing the first result", "feature_from_line calls", "byte-identical prints", "strict=False comparisons", "_reconstruct contract evaluations",
+            "lines with '%' inside a key", "quoted-dialect lines with a double quote at the edge of a value"]
 ASSUMPTIONS = [
     "grammar: values are non-empty, do not begin/end with a blank, reserved characters appear only as upper-case "
     "percent-escapes (gff3 / unquoted gff2) or not at all (gtf: no ; \" , controls); gff3 values contain no double quote",
@@ -194,6 +195,23 @@ def run(ctx):
     for _ in range(ctx.budget(6000, 800000)):
         D = rng.choice(pts)
         rec = R.record(rng, D, nmin=0 if rng.random() < 0.05 else 1, nmax=6)
+        r = rng.random()
+        if r < 0.04 and len(rec["attrs"]) >= 2:
+            # a key that contains '%' (GC%, %identity, frac%25): keys are text, never a format string nor an escape
+            i = rng.randrange(1, len(rec["attrs"]))
+            k = rec["attrs"][i][0]
+            k2 = rng.choice([k + "%", "%" + k, k[:1] + "%" + k[1:], k + "%25", k + "%%" + "len", k + "%s", k + "%(x)s"])
+            if k2 not in [kv[0] for kv in rec["attrs"]]:
+                rec["attrs"][i][0] = k2
+                ctx.mon("lines with '%' inside a key")
+        elif r < 0.08 and D["fmt"] in ("gtf", "gff3q") and rec["attrs"]:
+            # quoted dialects: a value whose own text begins and/or ends with a double quote
+            cands = [kv for kv in rec["attrs"] if len(kv[1]) == 1]
+            if cands:
+                kv = rng.choice(cands)
+                v = kv[1][0]
+                kv[1][0] = rng.choice(['"' + v + '"', '"' + v, v + '"', '"' + v + '" end', '5\' "' + v + '"'])
+                ctx.mon("quoted-dialect lines with a double quote at the edge of a value")
         case = {"kind": "line", "D": D, "rec": rec}
         check_line(ctx, rec, D, case)
         ctx.case((D, rec), len(rec["attrs"]) >= 2, sample=case, cls="random %s" % D["fmt"])
